@@ -22,7 +22,15 @@ type harnessSpec struct {
 	race          bool
 }
 
+// stageSpec is an additional harness stage of a property.
+type stageSpec struct {
+	harness   string
+	quickS    int
+	thoroughS int
+}
+
 type propSpec struct {
+	extra     []stageSpec // further harness stages that serve the same property
 	harness   string
 	level     string
 	quickS    int // per-worker wall budget (s)
